@@ -55,6 +55,7 @@ func Burst(run *hlib.Run, rounds, parts int) {
 						break
 					}
 					run.Count("burst-consumepartition-error")
+					run.Count("burst-consumepartition-error:" + err.Error())
 					time.Sleep(5 * time.Millisecond)
 				}
 				if err != nil {
